@@ -138,6 +138,11 @@ pub fn judge(ctx: &mut Ctx, script: &Script, shrink: bool) {
 pub fn run(ctx: &mut Ctx) {
     crate::util::private_home(&ctx.work.clone(), "c27");
     if let Some(rep) = ctx.replay.clone() {
+        if rep["stdio"].as_bool().unwrap_or(false) {
+            judge_stdio(ctx, &crate::lspstdio::case_from_json(&rep));
+            println!("replay: signatures {:?}", ctx.sig_counts.keys().collect::<Vec<_>>());
+            return;
+        }
         let s = script_from_json(&rep);
         judge(ctx, &s, false);
         println!("replay: signatures {:?}", ctx.sig_counts.keys().collect::<Vec<_>>());
@@ -168,4 +173,55 @@ pub fn run(ctx: &mut Ctx) {
         }
     }
     ctx.extra_add("distinct_interleavings", ctx.fps.len() as u64);
+    // ---- the shipped binary over real stdio: document traffic sent right after `initialized`, i.e. queued in
+    //      ServerMessageProcessor::pending_messages while the workspace is initialised, on the real
+    //      multi-threaded runtime; the protocol-boundary view (documentSymbol) must show the last text ----
+    let ns = ctx.budget(3, 40);
+    for i in 0..ns {
+        if ctx.out_of_time() {
+            break;
+        }
+        let mut rng = Rng::new(ctx.case_seed(i) ^ 0xc27_57d10);
+        let case = crate::lspstdio::gen_case_with_edits(&mut rng, i as usize);
+        judge_stdio(ctx, &case);
+    }
+}
+
+pub fn judge_stdio(ctx: &mut Ctx, case: &crate::lspstdio::StdioCase) {
+    use crate::lspstdio as st;
+    let o = match st::run_case(&ctx.work.clone(), ctx.shard, case) {
+        Ok(o) => o,
+        Err(e) => {
+            ctx.inconclusive(&format!("stdio-harness:{}", e.split(':').next().unwrap_or("")));
+            return;
+        }
+    };
+    if let Some(r) = &o.inconclusive {
+        ctx.inconclusive(r);
+        return;
+    }
+    if o.died_early.is_some() || o.sentinel_overtook {
+        // a C24 matter (reported there); nothing to judge here
+        ctx.inconclusive("stdio-session-incomplete(reported-by-C24)");
+        return;
+    }
+    ctx.clause("stdio:process-run");
+    ctx.clause_n("stdio:document-notifications", case.edits.iter().map(|e| e.len() as u64 + 1).sum());
+    ctx.clause_n("stdio:document-views-checked", o.doc_views.iter().filter(|v| v.4.is_some()).count() as u64);
+    let v = st::oracle_c27(case, &o);
+    if v.is_empty() {
+        ctx.clause("stdio:final-state-checked");
+        let h = crate::rng::fnv(st::case_to_json(case).to_string().as_bytes());
+        ctx.held(h, case.edits.iter().map(|e| e.len()).sum::<usize>() >= 2);
+        return;
+    }
+    let mut first = true;
+    for (sig, detail) in v {
+        if first {
+            first = false;
+            ctx.violated(&sig, &detail, st::case_to_json(case));
+        } else {
+            ctx.add_violation(&sig, &detail, st::case_to_json(case));
+        }
+    }
 }
